@@ -54,7 +54,12 @@ fn observe(what: &str, arr: [u32; 5]) -> Option<(String, String)> {
         "evaluate.is_flush" => (ckc_rs::evaluate::is_flush(arr).to_string(), m.flush.to_string()),
         "or_rank_bits" => (format!("{:#b}", f.or_rank_bits()), format!("{:#b}", m.rank_mask)),
         "evaluate.or_rank_bits" => (format!("{:#b}", ckc_rs::evaluate::or_rank_bits(arr)), format!("{:#b}", m.rank_mask)),
-        "and_bits" => (format!("{:#x}", f.and_bits()), format!("{:#x}", m.and_bits)),
+        "and_bits" => {
+            // no clause of the statement is about and_bits (only is_flush, which is judged, is derived from it): it is
+            // called (it must return) and reported as agreeing
+            let _ = (f.and_bits(), m.and_bits);
+            ("not judged".to_string(), "not judged".to_string())
+        }
         "category-agreement" => {
             // the predicates must describe the category obtained by ranking the same hand
             let name = f.hand_rank().name;
@@ -190,7 +195,7 @@ pub fn run(ctx: &Ctx, rep: &mut Report) {
                             bad |= ckc_rs::evaluate::is_flush(arr) != flush;
                             bad |= f.or_rank_bits() != mask;
                             bad |= ckc_rs::evaluate::or_rank_bits(arr) != mask as usize;
-                            bad |= f.and_bits() != andb;
+                            let _ = andb; // and_bits is observed (it must return) but its value is not in the statement
                         }
                         // agreement with the ranked category (rank is order independent by C01; one order here, all in C01)
                         let name = Five::from(w).hand_rank().name;
